@@ -91,9 +91,12 @@ pub struct Hx {
     pub fwd_bodies: Vec<(BodyIdx, Option<ActorId>)>,
     pub op_count: u64,
     pub weak_backref: bool,
+    pub logs: super::logchk::LogState,
+    pub seed: u64,
 }
 
 thread_local! {
+    static LOG_SEED: std::cell::Cell<u64> = const { std::cell::Cell::new(0) };
     static HX: RefCell<Option<Box<Hx>>> = const { RefCell::new(None) };
     static EPOCH: Instant = Instant::now() + Duration::from_secs(50_000);
 }
@@ -991,6 +994,7 @@ fn mk_ret_to(actor: &Actor<Act>, shape: u16, id: ItemId, kind: u8) -> Ret<Msg> {
 fn notifier(aid: ActorId) -> Ret<StopCause> {
     Ret::new(move |c: Option<StopCause>| {
         let cause = c.as_ref().map(cause_of);
+        super::logchk::actor_notified(aid, cause);
         hx(|h| {
             h.tr(|| format!("notifier of a{}: {:?}", aid, cause));
             h.ev(11, aid as u64, match cause {
@@ -1336,11 +1340,18 @@ pub fn exec_op(env: &mut Env, op: &Op, bag: &mut Vec<Handle>, fr: &mut Frame) {
                     own = Some(o);
                 }
             }
+            let log_id = weak.id();
+            let parent_id = match &*env {
+                Env::Ready(_, cx) => cx.id(),
+                Env::Prep(cx) => cx.id(),
+                _ => 0,
+            };
             hx(|h| {
                 debug_assert_eq!(h.arefs.len(), aid as usize);
                 h.arefs.push(Some(weak));
                 h.live_handles += own.is_some() as i64;
             });
+            super::logchk::actor_created(aid, log_id, parent_id);
             if let Some(o) = own {
                 let hd = own_w(o, aid);
                 match (dest % 3, &mut *env) {
@@ -1924,6 +1935,7 @@ fn do_run(s: &mut Stakker, target_hm: i64, idle: bool) {
             })
             .collect()
     });
+    super::logchk::after_run(s, hx(|h| h.stats.runs));
     // C04: a slab contains exactly its not-yet-terminated children once the run completes
     for (aid, a, expect) in parents {
         let got = a.query(s, |this, _| this.slab.len());
@@ -1992,6 +2004,7 @@ fn orderly_shutdown(st: &mut Option<Stakker>) {
 
 fn run_top(prog: &Prog) {
     let mut st = Some(Stakker::new(inst_hm(0)));
+    super::logchk::install(st.as_mut().unwrap(), hx(|h| h.seed));
     let mut bag: Vec<Handle> = Vec::new();
     let mut fr = Frame::default();
     let mut nops = 0u64;
@@ -2104,6 +2117,8 @@ fn run_top(prog: &Prog) {
 }
 
 fn summarize(h: &mut Hx) {
+    // C20 record counts
+    // (done by the caller before summarize, needs the installed context)
     // end-of-case obligations: report each of them (they decide different properties)
     if !h.dead {
         let mut out: Vec<Viol> = Vec::new();
@@ -2238,6 +2253,7 @@ pub fn run_prog(prog: Prog, trace: bool, strict: bool) -> CaseReport {
 
 fn execute(bytes: &[u8], opts: &crate::Opts) -> CaseReport {
     let prog = Rc::new(super::decode(bytes, &opts.focus, opts.size));
+    LOG_SEED.with(|s| s.set(crate::fnv(bytes)));
     execute_prog(prog, opts)
 }
 
@@ -2267,6 +2283,8 @@ fn execute_prog(prog: Rc<Prog>, opts: &crate::Opts) -> CaseReport {
         fwd_bodies: Vec::new(),
         op_count: 0,
         weak_backref: false,
+        logs: Default::default(),
+        seed: LOG_SEED.with(|s| s.get()),
     });
     if opts.trace {
         hxv.rep.trace.push("program:".into());
@@ -2277,6 +2295,9 @@ fn execute_prog(prog: Rc<Prog>, opts: &crate::Opts) -> CaseReport {
     }
     HX.with(|c| *c.borrow_mut() = Some(hxv));
     let r = crate::pcatch::catch(|| run_top(&prog));
+    if r.is_ok() {
+        super::logchk::final_check();
+    }
     let mut hxv = HX.with(|c| c.borrow_mut().take()).unwrap();
     match r {
         Ok(()) => summarize(&mut hxv),
